@@ -398,7 +398,7 @@ def exec : Nat → Instr → M Unit
       let lhs ← popData
       let s ← get
       match lhs, rhs with
-      | .arr a, .arr b => if (s.heap.get a).isEmpty ∧ (s.heap.get b).isEmpty then pure () else err
+      | .arr a, .arr b => if (s.heap.get a).isEmpty ∧ (s.heap.get b).isEmpty then pushData rhs else err   -- leaves the assigned value (fix C04-03)
       | _, _ => err
 
 /-- `EvalCallExpression`. -/
